@@ -45,7 +45,7 @@ def run_mode(ctx, mode, extra_args=(), binary="fsops"):
         if binary == "txn" and mode == "c06":
             # batch protocol inclusion (spec/Txn.tla): evidence only, like the Staged inclusion
             tdrift, tst = txnmon.validate(trace)
-            st["txn"] = dict(tst, design=txnmon.design(), drift=tdrift[:20], drift_count=len(tdrift))
+            st["txn"] = dict(tst, design=txnmon.design(ctx.tier), drift=tdrift[:20], drift_count=len(tdrift))
             for x in tdrift[:5]:
                 vlib.log("PROTOCOL-DRIFT %s: the real run %s (t=%d) is not a behaviour of Txn.tla at event %s" % (mode, x["name"], x["t"], x["at"]))
         tl = vlib.read_ndjson(trace)
